@@ -3,6 +3,7 @@ package main
 import (
 	"encoding/json"
 	"fmt"
+	"log"
 	"reflect"
 	"regexp"
 	"strings"
@@ -63,6 +64,11 @@ func (s spyLeaf) String() string {
 }
 
 var spyLogs sync.Map // root address -> *spyState
+
+// yieldingLeaf is a Stringer element whose String method is a scheduling point.
+type yieldingLeaf struct{ text string }
+
+func (y yieldingLeaf) String() string { schedUserPoint("stringer"); return y.text }
 
 func spyReceiver(kind string, mode int) any {
 	id := spySeq.Add(1)
@@ -147,6 +153,30 @@ func c11Receivers(quick bool) []c11Recv {
 		for mode := 0; mode < 4; mode++ {
 			k, mode := k, mode
 			out = append(out, c11Recv{fmt.Sprintf("%s/spy/mode%d", k, mode), func() any { return spyReceiver(k, mode) }})
+		}
+	}
+	// closures that are scheduling points (see schedUserPoint): under the controlled scheduler other
+	// threads run while one caller is inside user code in the middle of a query
+	for _, k := range []string{"AND", "LIST"} {
+		for _, mode := range []int{1, 3} {
+			k, mode := k, mode
+			out = append(out, c11Recv{fmt.Sprintf("%s/closures/mode%d", k, mode), func() any {
+				s := newStackKind(k)
+				s.SetEqualityPolicy(func(a, b any) error { schedUserPoint("equality"); return nil })
+				s.SetValidityPolicy(func(...any) error { schedUserPoint("validity"); return nil })
+				s.SetLessFunc(func(i, j int) bool { schedUserPoint("less"); return i < j })
+				if k != "LIST" {
+					s.SetPresentationPolicy(func(...any) string { schedUserPoint("presentation"); return "PRESENTED" })
+				}
+				s.Push("a", yieldingLeaf{"leaf"}, stackage.Or().Push("n"))
+				if mode&1 != 0 {
+					s.SetMutex()
+				}
+				if mode&2 != 0 {
+					s.SetReadOnly(true)
+				}
+				return s
+			}})
 		}
 	}
 	for mode := 0; mode < 2; mode++ {
@@ -509,27 +539,55 @@ func contentText(res []reflect.Value) string {
 	return strings.Join(p, " | ")
 }
 
+const c11EnvTag = " [package default loggers replaced after construction]"
+
+// a logger that is live as far as the library can tell (its writer is not io.Discard) and swallows everything
+type sinkWriter struct{}
+
+func (sinkWriter) Write(p []byte) (int, error) { return len(p), nil }
+
+var c11EnvLogger = log.New(sinkWriter{}, "c11 ", 0)
+
+// c11Env replaces (on) or restores (off) the package-level defaults.
+func c11Env(on bool) {
+	if on {
+		stackage.SetDefaultStackLogger(c11EnvLogger)
+		stackage.SetDefaultConditionLogger(c11EnvLogger)
+		return
+	}
+	stackage.SetDefaultStackLogger("off")
+	stackage.SetDefaultConditionLogger("off")
+}
+
 func init() {
 	register(&Check{ID: "C11", Engine: "A/B+C", Run: func(c *Ctx) {
 		recvs := c11Receivers(c.Quick())
 		// (1)-(4): purity, stable answers, returned containers, no lock on the read path
 		// receivers are built first (construction itself takes locks: SetMutex + Push); the hook that
 		// turns any lock event into a failure of the running query is installed afterwards
-		stackage.VerifHook = nil
-		built := make([]any, len(recvs))
-		for i, rv := range recvs {
-			built[i] = rv.Mk()
+		for _, env := range []string{"", c11EnvTag} {
+			stackage.VerifHook = nil
+			built := make([]any, len(recvs))
+			for i, rv := range recvs {
+				built[i] = rv.Mk()
+			}
+			if env != "" {
+				// the package defaults are replaced AFTER the receivers exist (documented to leave
+				// existing instances alone): a query must not pick anything up from them either
+				c11Env(true)
+			}
+			stackage.VerifHook = func(ev string, stackID, mutexID uintptr) { panic(lockTaken{ev}) }
+			spyOn.Store(true)
+			parallelFor(len(recvs), func(i int) {
+				x := built[i]
+				rv := c11Recv{recvs[i].Name + env, func() any { return x }}
+				c11Pure(c, rv, true)
+				c.States.Add(1)
+			})
+			stackage.VerifHook = nil
+			spyOn.Store(false)
+			c11Env(false)
 		}
-		stackage.VerifHook = func(ev string, stackID, mutexID uintptr) { panic(lockTaken{ev}) }
-		spyOn.Store(true)
-		parallelFor(len(recvs), func(i int) {
-			x := built[i]
-			rv := c11Recv{recvs[i].Name, func() any { return x }}
-			c11Pure(c, rv, true)
-			c.States.Add(1)
-		})
-		stackage.VerifHook = nil
-		spyOn.Store(false)
 		nq := 0
 		names := map[string]bool{}
 		for _, cl := range c11Calls(stackage.And()) {
@@ -546,10 +604,11 @@ func init() {
 			maxPairs = 400
 		}
 		for i, rv := range recvs {
-			if !strings.Contains(rv.Name, "content2") || !strings.Contains(rv.Name, "mode1") && !strings.Contains(rv.Name, "mode3") {
+			closures := strings.Contains(rv.Name, "/closures/")
+			if !closures && (!strings.Contains(rv.Name, "content2") || !strings.Contains(rv.Name, "mode1") && !strings.Contains(rv.Name, "mode3")) {
 				continue
 			}
-			if c.Quick() && i%2 == 0 {
+			if c.Quick() && i%2 == 0 && !closures {
 				continue
 			}
 			execs += c11Interleave(c, rv, maxPairs)
@@ -561,7 +620,7 @@ func init() {
 		c.Bound["receivers"] = len(recvs)
 		c.Bound["query_methods"] = nq
 		c.Bound["schedules_executed"] = execs
-		c.Rule = "every exported Stack/Condition method found by reflection that is not in the declared mutator list (queries) x argument tuples x receivers (5 kinds x 3 contents x {plain, mutex, read-only, both} x {default, fully configured}; Conditions): raw recursive dump identical before/after, same answer twice, altering returned slices changes nothing, no lock event (hook panics the call if the read path reaches lock()); plus every schedule of three threads issuing queries on one shared mutex-enabled structure under the cooperative scheduler (answers equal the isolated ones); plus a free-running -race pass with 16 goroutines (coverage.race_pass; any report is a violation). non-trivial = distinct (receiver, query, arguments)"
+		c.Rule = "every exported Stack/Condition method found by reflection that is not in the declared mutator list (queries) x argument tuples x receivers (5 kinds x 3 contents x {plain, mutex, read-only, both} x {default, fully configured}; Conditions), in the initial package state and again with the package default loggers replaced after the receivers were built: raw recursive dump identical before/after, same answer twice, altering returned slices changes nothing, no lock event (hook panics the call if the read path reaches lock()); plus every schedule of three threads issuing queries on one shared mutex-enabled structure under the cooperative scheduler (answers equal the isolated ones; the harness's own policy closures and Stringer leaves are scheduling points, so callers overlap in the middle of a query); plus a free-running -race pass with 16 goroutines (coverage.race_pass; any report is a violation). non-trivial = distinct (receiver, query, arguments)"
 		if nq < 30 {
 			c.Violation("vacuous", fmt.Sprintf("only %d query methods were found by reflection", nq), nil, 0)
 		}
@@ -581,10 +640,16 @@ func init() {
 	}, Replay: func(c *Ctx, raw json.RawMessage) {
 		var cs c11Case
 		json.Unmarshal(raw, &cs)
+		env := strings.HasSuffix(cs.Recv, c11EnvTag)
+		cs.Recv = strings.TrimSuffix(cs.Recv, c11EnvTag)
 		for _, rv := range c11Receivers(false) {
 			if rv.Name == cs.Recv {
 				stackage.VerifHook = nil
 				x := rv.Mk()
+				if env {
+					c11Env(true)
+					defer c11Env(false)
+				}
 				stackage.VerifHook = func(ev string, stackID, mutexID uintptr) { panic(lockTaken{ev}) }
 				c11Pure(c, c11Recv{rv.Name, func() any { return x }}, false)
 			}
